@@ -164,7 +164,7 @@ fn size_probe(schema: &Schema, data: &[u8], deser: bool) -> String {
     }
 }
 
-pub fn run(plan_path: &str) -> i32 {
+pub fn run(plan_path: &str, out_dir: Option<&str>) -> i32 {
     let plan: J = match std::fs::read_to_string(plan_path).ok().and_then(|s| serde_json::from_str(&s).ok()) {
         Some(p) => p,
         None => {
@@ -240,11 +240,14 @@ pub fn run(plan_path: &str) -> i32 {
     let heavy = plan["heavy"].as_bool().unwrap_or(true);
     // ---------------------------------------------------------------- uniformity sweep of the limit in force
     let mut sweep = Vec::new();
+    let do_sweep = plan["sweep"].as_bool().unwrap_or(true);
     let sv = std::mem::size_of::<Value>();
     let skv = std::mem::size_of::<(String, Value)>();
     let mut lens: Vec<u128> = vec![];
     for d in [w.checked_sub(1), Some(w), w.checked_add(1)].into_iter().flatten() {
-        lens.push(d as u128);
+        if do_sweep {
+            lens.push(d as u128);
+        }
     }
     let arr = Schema::array(Schema::Long).build();
     let map = Schema::map(Schema::Long).build();
@@ -309,6 +312,9 @@ pub fn run(plan_path: &str) -> i32 {
     }
     // element-count guards: count * size_of
     for (gname, schema, sz) in [("array-count", &arr, sv), ("map-count", &map, skv)] {
+        if !do_sweep {
+            break;
+        }
         let c0 = w / sz;
         for c in [c0.checked_sub(1), Some(c0), c0.checked_add(1)].into_iter().flatten() {
             if c as u128 > i64::MAX as u128 || c == 0 {
@@ -327,7 +333,7 @@ pub fn run(plan_path: &str) -> i32 {
         }
     }
     // decompressed output length (only where the payload is affordable)
-    if w <= (4 << 20) {
+    if w <= (4 << 20) && do_sweep {
         for d in &lens {
             let d = *d as usize;
             let payload = vec![7u8; d];
@@ -350,12 +356,23 @@ pub fn run(plan_path: &str) -> i32 {
             }
         }
     }
-    if w == usize::MAX {
+    if w == usize::MAX && do_sweep {
         // above the default: must be accepted when the limit is usize::MAX
         let dv = zigzag_varint(600 << 20);
         sweep.push(json!({"guard": "bytes", "declared": (600u64 << 20), "r": size_probe(&Schema::Bytes, &dv, false)}));
     }
-    println!("{}", json!({"events": events, "peek": peek, "observations": obs, "limit_in_force": w as u64, "limit_is_usize_max": w == usize::MAX, "sweep": sweep,
-        "size_of_value": sv, "size_of_string_value": skv}));
+    let result = json!({"events": events, "peek": peek, "observations": obs, "limit_in_force": w as u64, "limit_is_usize_max": w == usize::MAX, "sweep": sweep,
+        "size_of_value": sv, "size_of_string_value": skv});
+    match out_dir {
+        // one file per execution: under -Zmiri-many-seeds several executions share this process's stdout
+        Some(d) => {
+            let nonce = std::time::SystemTime::now().duration_since(std::time::UNIX_EPOCH).map(|x| x.as_nanos()).unwrap_or(0);
+            let path = format!("{d}/race-{nonce}-{:x}.json", &result as *const _ as usize);
+            if std::fs::write(&path, result.to_string()).is_err() {
+                return 5;
+            }
+        }
+        None => println!("{result}"),
+    }
     0
 }
